@@ -53,6 +53,8 @@ func checkC20(c *Ctx, r *Report) {
 					r.Triv("C20-R1", key, in.Pos(), "comma-ok type assertion")
 				} else if isTypeSwitchAssert(x) {
 					r.Triv("C20-R1", key, in.Pos(), "type switch")
+				} else if repoOwnedDynamicValue(x.X) {
+					r.Triv("C20-R1", key, in.Pos(), "asserts a value the process stored itself (sync.Map / atomic.Value / sync.Pool / context value), not backend data")
 				} else {
 					r.Bad("C20-R1", key, in.Pos(), "single-value type assertion on an interface value in code that handles backend-produced data: a value of another dynamic type panics")
 				}
@@ -614,4 +616,32 @@ func checkFiniteMetrics(c *Ctx, r *Report) {
 			r.Bad("C20-R5", key, sf.Pos(), "SafeFloat32 no longer maps math."+n+" inputs to a finite constant")
 		}
 	}
+}
+
+// repoOwnedDynamicValue: the interface value comes out of a container the process fills itself — sync.Map,
+// atomic.Value, sync.Pool, a context value — so its dynamic type is what the repo put there, not what a backend sent.
+func repoOwnedDynamicValue(v ssa.Value) bool {
+	for d := 0; d < 4 && v != nil; d++ {
+		switch x := v.(type) {
+		case *ssa.Extract:
+			v = x.Tuple
+		case *ssa.Call:
+			ci := describeCall(&x.Call)
+			if x.Call.IsInvoke() {
+				return ci.Name == "Value" && isNamed(x.Call.Value.Type(), "context", "Context")
+			}
+			switch {
+			case ci.Pkg == "sync" && ci.Recv == "Map" && (ci.Name == "Load" || ci.Name == "Swap" || ci.Name == "LoadOrStore" || ci.Name == "LoadAndDelete"):
+				return true
+			case ci.Pkg == "sync" && ci.Recv == "Pool" && ci.Name == "Get":
+				return true
+			case ci.Pkg == "sync/atomic" && ci.Recv == "Value" && (ci.Name == "Load" || ci.Name == "Swap"):
+				return true
+			}
+			return false
+		default:
+			return false
+		}
+	}
+	return false
 }
